@@ -77,7 +77,16 @@ Inductive rop :=
 | RTrigger (a : N)                    (* handleOutbound(a, true): the trigger channel *)
 | RTick (now : Z)                     (* NextOutboundHandshakeTimerTick(now) *)
 | RComplete (a : N)                   (* stage 2 from the right host: the handshake completes *)
-| RWrong (a : N) (v : N).             (* stage 2 from a wrong host at underlay v: restart *)
+| RWrong (a : N) (v : N)              (* stage 2 from a wrong host at underlay v: restart *)
+(* the same with the tun reader interleaved: while continueHandshake is between the receipt of the stage 2 and
+   Complete / the restart (it holds the HandshakeHostInfo lock, not the manager's), an inside packet for a goes
+   through GetOrHandshake + cachePacket *)
+| RCompleteQ (a : N) (p : pkt)
+| RWrongQ (a : N) (v : N) (p : pkt)
+(* a stage 1 FROM a (beginHandshake, this node is responder) with an inside packet for a queued between its
+   receipt and CheckAndComplete: the pending initiator handshake for a - created by that packet if there was
+   none - keeps it *)
+| RRespQ (a : N) (p : pkt).
 
 Inductive rout :=
 | RSend (h : N) (u : N)               (* the stage-0 message of pending hostinfo h sent to underlay address u *)
@@ -151,6 +160,41 @@ Definition tick (cfg : rcfg) (now : Z) (s : rstate) : rstate * list rout :=
   let s1 := set_wh s (advance now (wh s)) (OAdvance now) in
   drain cfg (length (w_exp (wh s1))) s1.
 
+(* GetOrHandshake + cachePacket for an address without tunnel *)
+Definition cache_op (cfg : rcfg) (a : N) (p : pkt) (s : rstate) : rstate :=
+  match mget a (pend s) with
+  | Some e => mkRS (wh s) (mset a (cache e p) (pend s)) (ridx s) (rnxt s) (rser s) (tr s)
+  | None =>
+      let s1 := fresh cfg a [] [] s in
+      match mget a (pend s1) with
+      | Some e => mkRS (wh s1) (mset a (cache e p) (pend s1)) (ridx s1) (rnxt s1) (rser s1) (tr s1)
+      | None => s1
+      end
+  end.
+
+(* continueHandshake, right host: Complete, then every queued packet through sendMessageNow *)
+Definition complete_op (cfg : rcfg) (a : N) (s : rstate) : rstate * list rout :=
+  match mget a (pend s) with
+  | Some e =>
+      if p_ready e then (drop a e s, map (fun p => RData (k_tag p)) (filter (fw_allows cfg) (p_store e)))
+      else (s, [])
+  | None => (s, [])
+  end.
+
+(* continueHandshake, wrong host: restart *)
+Definition wrong_op (cfg : rcfg) (a v : N) (s : rstate) : rstate * list rout :=
+  match mget a (pend s) with
+  | Some e =>
+      if p_ready e then
+        (fresh cfg a (filter (fun u => negb (N.eqb u v)) (p_remotes e)) (p_store e) (drop a e s), [])
+      else (s, [])
+  | None => (s, [])
+  end.
+
+(* a stage 2 is only processed for a pending handshake that built its stage 0 *)
+Definition answerable (a : N) (s : rstate) : bool :=
+  match mget a (pend s) with Some e => p_ready e | None => false end.
+
 Definition rstep (cfg : rcfg) (o : rop) (s : rstate) : rstate * list rout :=
   match o with
   | RStart a remotes =>
@@ -158,16 +202,7 @@ Definition rstep (cfg : rcfg) (o : rop) (s : rstate) : rstate * list rout :=
       | Some _ => (s, [])
       | None => (fresh cfg a remotes [] s, [])
       end
-  | RCache a p =>
-      match mget a (pend s) with
-      | Some e => (mkRS (wh s) (mset a (cache e p) (pend s)) (ridx s) (rnxt s) (rser s) (tr s), [])
-      | None =>
-          let s1 := fresh cfg a [] [] s in
-          match mget a (pend s1) with
-          | Some e => (mkRS (wh s1) (mset a (cache e p) (pend s1)) (ridx s1) (rnxt s1) (rser s1) (tr s1), [])
-          | None => (s1, [])
-          end
-      end
+  | RCache a p => (cache_op cfg a p s, [])
   | RSetRemotes a l =>
       match mget a (pend s) with
       | Some e => (mkRS (wh s) (mset a (mkPE (p_id e) (p_counter e) (p_ready e) (p_store e) (p_last e) l) (pend s))
@@ -176,23 +211,11 @@ Definition rstep (cfg : rcfg) (o : rop) (s : rstate) : rstate * list rout :=
       end
   | RTrigger a => handle cfg a true s
   | RTick now => tick cfg now s
-  | RComplete a =>
-      match mget a (pend s) with
-      | Some e =>
-          if p_ready e then
-            (* Complete, then every queued packet through sendMessageNow *)
-            (drop a e s, map (fun p => RData (k_tag p)) (filter (fw_allows cfg) (p_store e)))
-          else (s, [])
-      | None => (s, [])
-      end
-  | RWrong a v =>
-      match mget a (pend s) with
-      | Some e =>
-          if p_ready e then
-            (fresh cfg a (filter (fun u => negb (N.eqb u v)) (p_remotes e)) (p_store e) (drop a e s), [])
-          else (s, [])
-      | None => (s, [])
-      end
+  | RComplete a => complete_op cfg a s
+  | RWrong a v => wrong_op cfg a v s
+  | RCompleteQ a p => if answerable a s then complete_op cfg a (cache_op cfg a p s) else (s, [])
+  | RWrongQ a v p => if answerable a s then wrong_op cfg a v (cache_op cfg a p s) else (s, [])
+  | RRespQ a p => (cache_op cfg a p s, [])
   end.
 
 Fixpoint rrun (cfg : rcfg) (s : rstate) (ops : list rop) : rstate :=
